@@ -598,6 +598,32 @@ class VStore(DataSource, DataSink):
         return FloatDataType
 
 
+class VLabSrc(DataSource):
+    """Source with a parameter NAMED ``context`` (a free-text acquisition context): outputs value + len(context).
+    The no-context-in-process-logic rule is about operations, probes and context processors; IO components are exempt."""
+
+    @classmethod
+    def _get_data(cls, value: float = 1.0, context: str = "lab") -> FloatDataType:
+        REC.add("VLabSrc", None, {"value": value, "context": context})
+        return FloatDataType(float(value) + len(context))
+
+    @classmethod
+    def output_data_type(cls):
+        return FloatDataType
+
+
+class VAuditedSink(DataSink):
+    """Sink with a parameter NAMED ``context`` (an audit label)."""
+
+    @classmethod
+    def _send_data(cls, data: FloatDataType, context: str = "audit"):
+        REC.add("VAuditedSink", data, {"context": context})
+
+    @classmethod
+    def input_data_type(cls):
+        return FloatDataType
+
+
 class VSrcDefaultSeries(VSrcDefault):
     """SUBCLASS of the source VSrcDefault that refines output type and parameters: outputs [value, value+1, ...] (n items)."""
 
